@@ -77,8 +77,11 @@ def Loop.rep : Loop → Nat
 /-- `Loop.encapsulate` -/
 def Loop.encapsulate (l : Loop) : Loop := .node 1 [l]
 
-/-- the head of `TaborProgram.__init__` -/
-def initProgram (l : Loop) : Loop := if l.rep > 1 ∨ l.depth = 0 then l.encapsulate else l
+/-- the head of `TaborProgram.__init__`: `if program.repetition_count > 1 or program.volatile_repetition or
+program.depth() == 0: program.encapsulate()` (`rootVol`: the root's repetition count is volatile; a volatile
+count of 1 or 0 is encapsulated as well, so that it ends up in the advanced sequencer table) -/
+def initProgram (rootVol : Bool) (l : Loop) : Loop :=
+  if l.rep > 1 ∨ rootVol = true ∨ l.depth = 0 then l.encapsulate else l
 
 inductive Mode where
   | single | advanced
@@ -91,10 +94,14 @@ def chooseMode (m : Option Mode) (l : Loop) : Mode :=
 
 /-! ## Depth-2 balanced programs -/
 
+/-- a volatile repetition count as far as the back end looks at it: the id of its `VolatileProperty`
+(expression + dependencies) and the identity of the scope it is evaluated in -/
+abbrev VolId := Nat × Nat
+
 structure Entry where
   rep : Nat
   wf : WfId
-  vol : Option Nat        -- id of the volatile property of the repetition count, if any
+  vol : Option VolId      -- volatile repetition count, if any
   deriving Repr, DecidableEq
 
 structure SeqTab where
@@ -191,8 +198,8 @@ def unrollPrev (L : Limits) : List SeqTab → SeqTab → Option (List SeqTab × 
     else none
   | [], _ => none
 
-/-- … with the next table (the `volatile_repetition - 1` statement of the code is dead: the count
-setter has already replaced the definition by an `int`) -/
+/-- … with the next table (the count setter replaces a volatile definition by an `int`; the code only warns
+with `VolatileModificationWarning`) -/
 def unrollNext (L : Limits) (c : SeqTab) : List SeqTab → Option (List SeqTab)
   | nx :: r =>
     if nx.rep > 1 ∧ c.entries.length + nx.entries.length < L.max then
@@ -287,7 +294,11 @@ def playAdv {σ} (segs : List σ) (tabs : List (List TEntry)) : List TEntry → 
         | some s, some r => some (repeatL a.rep s ++ r)
         | _, _ => none
 
-abbrev VTab := List (TEntry × Option Nat)     -- a sequencer table with the volatile property of each entry
+/-- A sequencer table as `parse_aseq_program` keys it: every entry with its volatile property *and* the scope
+of that volatile count. (The code keeps the scopes in a second tuple, `(entries-with-properties, scopes of the
+volatile entries)`; two keys are equal iff properties and scopes agree position by position, which is equality
+of this list.) A table is therefore shared only between positions whose volatile counts live in the same scopes. -/
+abbrev VTab := List (TEntry × Option VolId)
 
 structure Tables where
   wfs : List WfId          -- the distinct waveforms; sequence-table elements index into it
@@ -567,13 +578,19 @@ def vol? : Sexp → Option (Option Nat)
   | .atom "-" => some none
   | s => (nat? s).map some
 
+/-- `-` or `(property scope)` -/
+def evol? : Sexp → Option (Option VolId)
+  | .atom "-" => some none
+  | .list [p, sc] => do pure (some (← nat? p, ← nat? sc))
+  | _ => none
+
 partial def loop? : Sexp → Option Loop
   | .list [.atom "w", r, i] => do pure (.leaf (← nat? r) (← nat? i))
   | .list (.atom "l" :: r :: cs) => do pure (.node (← nat? r) (← cs.mapM loop?))
   | _ => none
 
 def entry? : Sexp → Option Entry
-  | .list [.atom "e", r, w, v] => do pure ⟨← nat? r, ← nat? w, ← vol? v⟩
+  | .list [.atom "e", r, w, v] => do pure ⟨← nat? r, ← nat? w, ← evol? v⟩
   | _ => none
 
 def seqTab? : Sexp → Option SeqTab
@@ -601,9 +618,9 @@ def limits? : Sexp → Option Limits
   | .list [.atom "limits", a, b] => do pure ⟨← nat? a, ← nat? b⟩
   | _ => none
 
-def volS : Option Nat → Sexp
+def volS : Option VolId → Sexp
   | none => .atom "-"
-  | some v => ofNat v
+  | some v => .list [ofNat v.1, ofNat v.2]
 
 def errS (e : Err) : Sexp := .list [.atom "error", .atom e.name]
 
@@ -617,8 +634,8 @@ def tablesS (m : Mode) (T : Tables) (stagedOk : Bool) : Sexp :=
 
 /-- the model of `TaborProgram.__init__` up to the tables; the flattened program is supplied (`staged`),
 `flatten_and_balance` itself belongs to C06 -/
-def modelCompile (m : Option Mode) (L : Limits) (src : Loop) (st : Staged) : Sexp :=
-  let l0 := initProgram src
+def modelCompile (m : Option Mode) (L : Limits) (rootVol : Bool) (src : Loop) (st : Staged) : Sexp :=
+  let l0 := initProgram rootVol src
   match chooseMode m l0 with
   | .single =>
     if l0.depth ≠ 1 then errS .assertion else
@@ -772,10 +789,10 @@ def judge (m : Mode) (L : Limits) (src : Loop) (wfs : List SrcWf) (raws : List (
 def natList? (xs : List Sexp) : Option (List Nat) := xs.mapM nat?
 
 def handle : List Sexp → Sexp
-  | [.atom "model", m, l, .list [.atom "src", src], st] =>
-    match mode? m, limits? l, loop? src, staged? st with
-    | some m, some L, some src, some st => modelCompile m L src st
-    | _, _, _, _ => Sexp.err "bad-args"
+  | [.atom "model", m, l, .list [.atom "src", src], .list [.atom "rootvol", rv], st] =>
+    match mode? m, limits? l, loop? src, bool? rv, staged? st with
+    | some m, some L, some src, some rv, some st => modelCompile m L rv src st
+    | _, _, _, _, _ => Sexp.err "bad-args"
   | [.atom "judge", m, l, .list [.atom "src", src], c, .list (.atom "wfs" :: wfs), .list (.atom "segs" :: segs),
       .list (.atom "seqtabs" :: tabs), .list (.atom "adv" :: adv)] =>
     match mode? m, limits? l, loop? src, cfg? c with
